@@ -196,6 +196,22 @@ impl<'ast> Visit<'ast> for ArmFinder {
     }
 }
 
+struct IfFinder {
+    prefix: String,
+    hits: Vec<(Option<R>, Option<R>, Option<R>)>,
+}
+
+impl<'ast> Visit<'ast> for IfFinder {
+    fn visit_expr_if(&mut self, e: &'ast syn::ExprIf) {
+        let c = norm(&e.cond.to_token_stream().to_string());
+        if c.starts_with(&self.prefix) {
+            let then = Some(r(e.then_branch.brace_token.span.open(), e.then_branch.brace_token.span.close()));
+            self.hits.push((span_of(e), span_of(&*e.cond), then));
+        }
+        syn::visit::visit_expr_if(self, e);
+    }
+}
+
 struct ItemFinder {
     kind: String,
     name: String,
@@ -333,6 +349,28 @@ fn run_selector(file: &syn::File, sel: &str) -> String {
                     "{{\"found\":true,\"count\":{},\"ranges\":{}}}",
                     af.hits.len(),
                     json_ranges(&[("whole", *w), ("pat", *p), ("body", *b), ("guard", *g)])
+                ),
+                None => format!("{{\"found\":false,\"count\":{}}}", af.hits.len()),
+            }
+        }
+        "ifthen" => {
+            // ifthen:FNSEL|COND_PREFIX[#k] -> the k-th `if` in the function whose condition starts with the prefix
+            let (fnsel, cond) = match rest.split_once('|') {
+                Some(x) => x,
+                None => return "{\"found\":false,\"error\":\"ifthen needs FN|COND\"}".into(),
+            };
+            let (cond, k) = split_index(cond);
+            let fns = find_fn(file, fnsel);
+            let Some(f) = fns.first() else {
+                return "{\"found\":false,\"error\":\"fn not found\"}".into();
+            };
+            let mut af = IfFinder { prefix: norm(cond), hits: vec![] };
+            af.visit_block(&f.block);
+            match af.hits.get(k) {
+                Some((w, c, t)) => format!(
+                    "{{\"found\":true,\"count\":{},\"ranges\":{}}}",
+                    af.hits.len(),
+                    json_ranges(&[("whole", *w), ("cond", *c), ("then", *t)])
                 ),
                 None => format!("{{\"found\":false,\"count\":{}}}", af.hits.len()),
             }
